@@ -22,7 +22,7 @@ from . import common
 PROPERTY = 'C03'
 RULE = ('(a) enumeration of defeat placements: 24 defeat-capable constructs x 7 wrappers x try/undo|stop x 4 exit routes '
         'x 3 following tries x 2 handler shapes x 6 inputs; (b) random sequential + time-travel programs at word sizes '
-        '2,3,4, checked, and unchecked when the checked run raised no fault; (c) examples/*.hid with small inputs; '
+        '2,3,4, checked, and unchecked when the checked run raised no fault; (c) examples/*.hid with small inputs; (d) every library routine on empty / one-element / long operands of every storage kind, plain and inside try bodies; '
         'non-trivial = at least one speculative halt was executed and averted in the run; distinct by hash of '
         '(source, args, word, unchecked)')
 ASSUMPTIONS = common.ISA_ASSUMPTIONS[:3] + ['a run that exceeds the step budget without repeating a state is inconclusive, not a pass']
@@ -47,9 +47,44 @@ def plan(tier, seed):
         specs.append({'kind': 'gen', 'seed': s, 'count': per})
     specs.append({'kind': 'examples', 'steps': 1_500_000 if tier == 'quick' else 8_000_000})
     specs.append({'kind': 'illegal'})
+    specs.append({'kind': 'library'})
     for s in common.shard_seeds(seed, 4 if tier == 'quick' else 16):
         specs.append({'kind': 'exits', 'seed': s, 'count': 40 if tier == 'quick' else 120})
     return specs
+
+
+LIBRARY_PROGRAMS = [
+    ('byte arrays by storage', '''
+byte[] gm = ['g', 'm'];
+const byte[] ge = [];
+empty show(byte[] p) { write(p); writeln(p); }
+empty showc(const byte[] p) { write(p); writeln(p); }
+empty @is_you(byte[] data) {
+    write(data); writeln(data);
+    byte e[data.length]; write(e.length); write(e); writeln(e);
+    byte z[0]; write(z); writeln(z);
+    byte[] alias = data; write(alias);
+    show(data); show(e); show(z); show(gm); showc(ge); showc(data); showc("");
+    write(ge); writeln(ge); write(gm);
+    const byte[] le = []; write(le); writeln(le);
+    try { write(data); write(z); !truth_is_defeat(data.length == 1); write('c'); } undo { write('u'); }
+    try { writeln(z); writeln(data); !truth_is_defeat(data.length == 1); } stop { write('s'); }
+    writeln("end");
+}
+''', [[], ['7'], ['104', '105'], ['1', '2', '3', '4', '5', '6', '7', '8', '9']]),
+    ('strings and scalars', '''
+string gs = "";
+empty shows(string p) { write(p); writeln(p); write(p.length); }
+empty @is_you(const string[] w) {
+    write(""); writeln(""); write(gs); writeln(gs); shows(""); shows(gs);
+    for (int i = 0; i < w.length; i += 1) { write(w[i]); writeln(w[i]); shows(w[i]); write(w[i] is byte[]); }
+    write(0); writeln(0); write(-0); write('\\0' is int); write(false); writeln(true); write('x'); writeln('y'); writeln();
+    try { write(w.length); write(""); !truth_is_defeat(w.length == 1); write('c'); } undo { write('u'); }
+    try { writeln(""); writeln(w.length); !truth_is_defeat(w.length == 1); } stop { write('s'); }
+    writeln("end");
+}
+''', [[], [''], ['', 'ab', ''], ['x' * 255, 'y' * 256]]),
+]
 
 
 def judge(res, run, case, sites):
@@ -133,6 +168,14 @@ def run_shard(spec):
             for x in ('0', '1', '2', '5'):
                 for unchecked in (False, True):
                     run_one(res, src, [x], 2, unchecked, f'exits+boom:{spec["seed"]}:{i}', sites)
+    elif spec['kind'] == 'library':
+        # every library routine with empty, one-element and ordinary operands of every storage kind (the routines are
+        # loops around Turing jumps: an exit test that halts on both sides is a committed halt), plain and inside try bodies
+        for tag, src, argsets in LIBRARY_PROGRAMS:
+            for a in argsets:
+                for word in (2, 3):
+                    for unchecked in (False, True):
+                        run_one(res, src, a, word, unchecked, 'library:' + tag, sites)
     elif spec['kind'] == 'illegal':
         # programs that must be rejected; an accepted one is still subject to "never halts"
         for tag, src in placement.illegal_programs():
